@@ -295,6 +295,11 @@ def bi_rectangle_zoned_nested(length_x, length_y, b_min, b_max_x, b_max_y):
     n_1_values = list(range(n_min_1, n_max_1 + 1))
     n_2_values = list(range(n_min_2, n_max_2 + 1))
 
+    if len(n_1_values) == 0 or len(n_2_values) == 0:
+        # no whole number of rows fits between the minimum and maximum spacing on one side: no candidate
+        # field (like rectangular and bi_rectangle_nested; this used to end in an IndexError below)
+        return [[]], [[]]
+
     j = 0  # pertains to n_1_values
     k = 0  # pertains to n_2_values
     index_l = 0
